@@ -13,6 +13,8 @@ name and location, and field preservation of the proto / SPDX / CycloneDX conver
 -/
 import Scalibr.Proofs.Index
 import Scalibr.Gen.Purl
+import Scalibr.Model.ProtoPkg
+import Scalibr.Model.Sbom
 namespace Scalibr.Index
 open Scalibr.Gen.Purl
 
@@ -66,3 +68,121 @@ example : getSpecific (new [⟨0, some ("deb", "a")⟩, ⟨1, none⟩, ⟨2, som
 example : ¬ (∀ e ∈ [("os/snap", "TypeSnap", "snap")], e.2.2 ∈ ["deb", "rpm"]) := by decide
 
 end Scalibr.Index
+
+/-! ### result proto: the generic field copying of `binary/proto/proto.go` (all packages, all extractors) -/
+
+namespace Scalibr.ProtoPkg
+
+/-- `int32(x)` is the identity on what fits an int32 … -/
+theorem toInt32_id (x : Int) (h1 : -2147483648 ≤ x) (h2 : x < 2147483648) : toInt32 x = x := by
+  unfold toInt32; omega
+
+/-- The proto record carries the package's name, version, locations (same order), extractor name,
+ecosystem, source code identifier and one annotation per annotation — verbatim, for every package. -/
+theorem C14_proto_fields {M PM : Type} (ops : Ops M PM) (pkg : Package M) :
+    (packageToProto ops pkg).name = pkg.name ∧
+    (packageToProto ops pkg).version = pkg.version ∧
+    (packageToProto ops pkg).locations = pkg.locations ∧
+    (packageToProto ops pkg).extractor = ops.extractorName pkg ∧
+    (packageToProto ops pkg).ecosystem = ops.ecosystem pkg ∧
+    (packageToProto ops pkg).sourceCode = pkg.sourceCode ∧
+    (packageToProto ops pkg).annotations.length = pkg.annotations.length ∧
+    (packageToProto ops pkg).metadata = ops.setMeta pkg.metadata := by
+  refine ⟨rfl, rfl, rfl, rfl, rfl, ?_, by simp [packageToProto], rfl⟩
+  unfold packageToProto sourceCodeToProto
+  cases pkg.sourceCode <;> rfl
+
+/-- The proto purl is `ToPURL`'s purl, field by field (qualifiers in order), with its printed form; no
+purl record iff `ToPURL` returned nil. -/
+theorem C14_proto_purl {M PM : Type} (ops : Ops M PM) (pkg : Package M) :
+    (ops.toPURL pkg = none → (packageToProto ops pkg).purl = none) ∧
+    (∀ u, ops.toPURL pkg = some u →
+      (packageToProto ops pkg).purl =
+        some ⟨ops.purlString u, u.typ, u.ns, u.name, u.version, u.qualifiers, u.subpath⟩) := by
+  unfold packageToProto
+  refine ⟨fun h => by simp [h, purlToProto], fun u h => ?_⟩
+  simp [h, purlToProto, qualifiersToProto]
+
+/-- Layer details are carried verbatim (index within int32 range, as layer indexes are); none iff none. -/
+theorem C14_proto_layer_partial {M PM : Type} (ops : Ops M PM) (pkg : Package M) :
+    (pkg.layerDetails = none → (packageToProto ops pkg).layerDetails = none) ∧
+    (∀ ld, pkg.layerDetails = some ld → -2147483648 ≤ ld.index → ld.index < 2147483648 →
+      (packageToProto ops pkg).layerDetails = some ⟨ld.index, ld.diffID, ld.command, ld.inBaseImage⟩) := by
+  unfold packageToProto
+  refine ⟨fun h => by simp [h, layerDetailsToProto], fun ld h h1 h2 => ?_⟩
+  simp [h, layerDetailsToProto, toInt32_id ld.index h1 h2]
+
+/-- … and NOT beyond: the full-strength "verbatim" fails for an index that does not fit an int32
+(`int32(ld.Index)` wraps) — no real image has 2³¹ layers; the hypothesis above is exactly this. -/
+theorem C14_proto_layer_wraps : toInt32 2147483648 = -2147483648 ∧ toInt32 4294967296 = 0 := by decide
+
+/-- The three known annotations are told apart; everything else becomes UNSPECIFIED. -/
+theorem C14_proto_annotations :
+    annotationToProto 1 = .transitional ∧ annotationToProto 2 = .insideOSPackage ∧ annotationToProto 3 = .insideCacheDir ∧
+    ∀ a : Int, a ≠ 1 → a ≠ 2 → a ≠ 3 → annotationToProto a = .unspecified := by
+  refine ⟨rfl, rfl, rfl, fun a h1 h2 h3 => ?_⟩
+  simp [annotationToProto, h1, h2, h3]
+
+/-- The result lists one record per package, in inventory order: record `i` is the conversion of package `i`. -/
+theorem C14_proto_list {M PM : Type} (ops : Ops M PM) (pkgs : List (Package M)) :
+    (packagesToProto ops pkgs).length = pkgs.length ∧
+    ∀ i (h : i < pkgs.length), (packagesToProto ops pkgs)[i]? = some (packageToProto ops pkgs[i]) := by
+  unfold packagesToProto
+  refine ⟨by simp, fun i h => by simp [h]⟩
+
+end Scalibr.ProtoPkg
+
+/-! ### SBOM exporters (model of `converter.ToSPDX23` / `ToCDX`: `Scalibr.Sbom`, tied to the code by C15's stream) -/
+
+namespace Scalibr.Sbom
+
+/-- what the SPDX exporter writes for a package: nothing without a purl or with an empty purl name or
+version, else the purl's name, version and printed form -/
+def spdxRecord {Purl : Type} (ops : PurlOps Purl) (pkg : Pkg Purl) : Option (String × String × List String) :=
+  match pkg.purl with
+  | none => none
+  | some u => if ops.name u = "" ∨ ops.version u = "" then none else some (ops.name u, ops.version u, [ops.str u])
+
+theorem spdxLoop_fields {Purl : Type} (ops : PurlOps Purl) (env : Env) (mainId : String) (inv : List (Pkg Purl)) (k : Nat) :
+    (spdxLoop ops env mainId k inv).1.map (fun p => (p.name, p.version, p.extRefs.map (·.locator))) =
+      inv.filterMap (spdxRecord ops) := by
+  induction inv generalizing k with
+  | nil => rfl
+  | cons pkg rest ih =>
+    unfold spdxLoop
+    cases hp : pkg.purl with
+    | none => simp [spdxRecord, hp, ih]
+    | some u =>
+      by_cases he : ops.name u = "" ∨ ops.version u = ""
+      · simp [spdxRecord, hp, he, ih]
+      · simp [spdxRecord, hp, he, ih]
+
+/-- Every SPDX package record after the synthetic `main` one carries the purl name, purl version and the
+purl string of its package, in inventory order; packages without an exportable purl are the only ones left out. -/
+theorem C14_spdx_fields {Purl : Type} (ops : PurlOps Purl) (env : Env) (cfg : SPDXConfig) (inv : List (Pkg Purl)) :
+    ((toSpdx ops env cfg inv).packages.drop 1).map (fun p => (p.name, p.version, p.extRefs.map (·.locator))) =
+      inv.filterMap (spdxRecord ops) := by
+  unfold toSpdx
+  simpa using spdxLoop_fields ops env _ inv 1
+
+def compFields : Component → String × String × String × List String
+  | .mk _ _ n v p _ occ _ => (n, v, p, occ)
+
+theorem cdxLoop_fields {Purl : Type} (ops : PurlOps Purl) (env : Env) (inv : List (Pkg Purl)) (k : Nat) :
+    (cdxLoop ops env k inv).map compFields =
+      inv.map fun pkg => (pkg.name, pkg.version, (match pkg.purl with | some u => ops.str u | none => ""), pkg.locations) := by
+  induction inv generalizing k with
+  | nil => rfl
+  | cons pkg rest ih =>
+    simp only [cdxLoop, cdxComponent, compFields, List.map_cons, ih]
+    cases pkg.purl <;> rfl
+
+/-- Every CycloneDX component carries its package's name, version, purl string ("" without purl) and all
+its locations in order — one component per package, in inventory order. -/
+theorem C14_cdx_fields {Purl : Type} (ops : PurlOps Purl) (env : Env) (cfg : CDXConfig) (inv : List (Pkg Purl)) :
+    ((toCdx ops env cfg inv).components.getD []).map compFields =
+      inv.map fun pkg => (pkg.name, pkg.version, (match pkg.purl with | some u => ops.str u | none => ""), pkg.locations) := by
+  unfold toCdx
+  simpa using cdxLoop_fields ops env inv 1
+
+end Scalibr.Sbom
